@@ -201,6 +201,9 @@ struct Agg {
     states: Vec<u64>,
     panics: BTreeMap<String, u64>,
     fp_pairs: Vec<(u64, u64)>,
+    /// lengths at which the vectors are de-duplicated next (doubling: amortised cost)
+    states_limit: usize,
+    fps_limit: usize,
 }
 
 fn compact(v: &mut Vec<u64>) {
@@ -226,13 +229,15 @@ impl Agg {
         if keep_pairs {
             self.fp_pairs.push((run, res.fingerprint));
         }
-        // keep memory bounded: de-duplicate whenever a vector has grown a lot
-        if self.states.len() > (1 << 23) {
+        // keep memory bounded: de-duplicate when a vector has doubled since the last time
+        if self.states.len() > self.states_limit.max(1 << 23) {
             compact(&mut self.states);
+            self.states_limit = self.states.len() * 2;
         }
-        if self.fps.len() > (1 << 23) {
+        if self.fps.len() > self.fps_limit.max(1 << 23) {
             compact(&mut self.fps);
             compact(&mut self.nontrivial_fps);
+            self.fps_limit = self.fps.len() * 2;
         }
     }
     fn merge(&mut self, mut o: Agg) {
